@@ -598,7 +598,8 @@ class Engine:
             if len(segs) >= 2:
                 vs = self.prog.enum_variants('::'.join(segs[:-1]))
                 if vs is not None and segs[-1] in vs:
-                    return Adt(canon_enum(segs[:-1]), vs.index(segs[-1]), segs[-1], ops)
+                    en = segs[-2] if self.prog.enums.get(segs[-2]) is not None or len(segs) < 3 else '::'.join(segs[-3:-1])
+                    return Adt(en, vs.index(segs[-1]), segs[-1], ops)
             return Adt(segs[-1], None, None, ops)
         if kind == 'struct':
             head = strip_generics(rv[2])
@@ -953,6 +954,22 @@ class Engine:
                 return ('model', h)
         f = self.prog.resolve_call(callee)
         if f is not None:
+            qt, qtrait, _ = split_qself(callee)
+            if qt is not None and qtrait is not None and qt.lstrip().startswith('&'):
+                # std's forwarding impls (`impl PartialEq<&B> for &A`, Display for &T, ...):
+                # strip one reference level per leading `&` and call the impl for the pointee
+                n = len(qt) - len(qt.lstrip('& '))
+                n = qt.replace(' ', '').count('&', 0, len(qt.replace(' ', '')) - len(qt.replace(' ', '').lstrip('&')))
+
+                def fwd(ex, callee, args, f=f, n=n):
+                    out = []
+                    for a in args:
+                        for _ in range(n):
+                            if isinstance(a, Ref) and isinstance(a.get(), Ref):
+                                a = a.get()
+                        out.append(a)
+                    return ex.call_mir(f, out)
+                return ('model', fwd)
             return ('mir', f)
         return ('none', None)
 
